@@ -3,6 +3,7 @@ package props
 import (
 	"go/ast"
 	"go/token"
+	"regexp"
 	"strings"
 
 	"golang.org/x/tools/go/ssa"
@@ -701,10 +702,13 @@ func c10(c *an.Ctx) {
 			n++
 			o.Site(i)
 			gs := strings.Join(an.GuardStrings(i.Block()), " ; ")
-			for _, want := range []string{"query.Options == nil", "!db.HasTx(ctx)", "batch.HasBatching(ctx)"} {
+			for _, want := range []string{".Options == nil)", ".HasTx(", "batch.HasBatching("} {
 				if !strings.Contains(gs, want) {
 					o.FailAt(i, "the batched path is taken without %s (guards: %s)", want, an.Short(gs, 120))
 				}
+			}
+			if m := regexp.MustCompile(`(!?)[A-Za-z_][A-Za-z0-9_]*\.HasTx\(`).FindStringSubmatch(gs); m != nil && m[1] != "!" {
+				o.FailAt(i, "the batched path is taken inside a transaction")
 			}
 			checks := an.Calls(fn, checkSpecs...)
 			blk := an.NewBlocker()
